@@ -390,6 +390,9 @@ CHAIN_TYPES = {
     'e': 'U', '.status': 'int', '.body': 'str', '.error_codes': 'Array[U, bool]', '.message': 'str', '.strerror': 'str', '.errno': 'int',
     '.os_error': 'U', '.args': 'Array[int, str]', '.__cause__': 'U', '.__context__': 'U', '.__suppress_context__': 'bool',
 }
+# for the chain contracts the texts are irrelevant: `'lit' in e.body / e.message / e.args[0]` is an arbitrary predicate per literal
+# (a set of literals, like error_codes) - no string theory in their VCs
+CHAIN_TYPES_ABSTRACT = dict(CHAIN_TYPES, **{'.body': 'Array[U, bool]', '.message': 'Array[U, bool]', '.args': 'Array[int, Array[U, bool]]'})
 CHAIN_ATTRS_FORBIDDEN = ('__context__', '__suppress_context__', '__traceback__')
 CLASSIFIERS = {'is_transient_error': 'T', 'is_limited_retries_error': 'L'}
 
@@ -431,15 +434,15 @@ def chain_contracts(src):
     for qn, pred in CLASSIFIERS.items():
         chain = '(e.__cause__ is not None and %s(e.__cause__))' % pred
         common = dict(
-            path=PATH, qualname=qn, types=dict(CHAIN_TYPES), strings=True, spec_funcs={pred: (['U'], 'bool')}, raises={},
+            path=PATH, qualname=qn, types=dict(CHAIN_TYPES_ABSTRACT), strings=True, spec_funcs={pred: (['U'], 'bool')}, raises={},
             calls={'isinstance': _isinstance_plain, qn: _pred(pred)},
             consts={'socket.EAI_AGAIN': z3.Int('EAI_AGAIN'), 'socket.EAI_NONAME': z3.Int('EAI_NONAME')},
         )
-        tables = {'aiodocker': 'U', 'RETRYABLE_ERRNOS': 'Array[int, bool]', 'RETRY_ONCE_BAD_REQUEST_ERROR_MESSAGES': 'List[str]'}
+        tables = {'aiodocker': 'U', 'RETRYABLE_ERRNOS': 'Array[int, bool]', 'RETRY_ONCE_BAD_REQUEST_ERROR_MESSAGES': 'List[U]'}
         out.append(Contract(
             label='%s[plain error]' % qn, extra_inputs=dict(tables, plain='bool'),
             ensures=[('an-error-of-no-tested-class-is-classified-by-its-explicit-cause-alone', 'implies(plain, result == %s)' % chain)],
-            canaries=[('a-plain-error-never-inherits-from-its-cause', 'implies(plain, result == False)'), ('every-error-is-plain', 'plain')],
+            canaries=[('a-plain-error-never-inherits-from-its-cause', 'implies(plain, result == False)')],
             **common))
         first, last = _tail_after_class_tests(_fn_of(src, qn))
         out.append(Contract(
@@ -586,6 +589,9 @@ def build(ctx):
     for c in httpx_contracts():
         e_ = pyvc.Engine(ctx, c)
         e_.replayer = lambda model, obl: _native(['body'])
+        # a counter-model of the body clause is a string longer than the cut-off (1025+ characters): z3 5.1 does not find it
+        # within any budget (and ignores its timeout), cvc5 answers at once - ask cvc5 first for these VCs
+        e_.obl_info = {'cvc5_first': True}
         e_.run()
     eng = pyvc.Engine(ctx, DELAY)
     eng.replayer = _delay_replayer(eng)
